@@ -7,7 +7,7 @@ git -C /repo worktree add -q "$wt" HEAD || exit 2
 out="$(mktemp -d /tmp/mutout.XXXXXX)"
 ( cd "$wt" && git apply "$mdir/patch.diff" ) || { echo "PATCH DOES NOT APPLY"; git -C /repo worktree remove --force "$wt"; exit 2; }
 cd /verif
-PYPYR_REPO="$wt" VERIF_OUT="$out" ./check "$pid" --tier "$tier" > "$out/log" 2>&1
+VERIF_DEV=1 PYPYR_REPO="$wt" VERIF_OUT="$out" ./check "$pid" --tier "$tier" > "$out/log" 2>&1
 rc=$?
 echo "== $pid $(basename "$mdir") tier=$tier exit=$rc"
 grep -E "VIOLATION|KNOWN-FINDING|INFRA|^C[0-9]+ " "$out/log" | cut -c1-400
